@@ -6,6 +6,7 @@ import (
 	"encoding/json"
 	"fmt"
 	"io"
+	"io/ioutil"
 	"math/rand"
 	"net"
 	"net/http"
@@ -290,8 +291,8 @@ type rawWSCodec struct {
 }
 
 func (c *rawWSCodec) ReadMessage() (*jsonrpc2.Message, error) { select {} }
-func (c *rawWSCodec) RemoteAddr() string                     { return "raw" }
-func (c *rawWSCodec) Close() error                           { return c.conn.Close() }
+func (c *rawWSCodec) RemoteAddr() string                      { return "raw" }
+func (c *rawWSCodec) Close() error                            { return c.conn.Close() }
 func (c *rawWSCodec) WriteMessage(m *jsonrpc2.Message) error {
 	b, err := json.Marshal(m)
 	if err != nil {
@@ -486,7 +487,14 @@ func c17HTTP(ctx *Ctx, i int, rng *rand.Rand) {
 			N int    `json:"n"`
 		}
 		cctx, cancel := context.WithTimeout(context.Background(), 10*time.Second)
-		err := cli.Call(cctx, &out, "vipnode_echo", s, k)
+		var err error
+		if k%3 == 2 {
+			// the same request as a body of undeclared length (HTTP/1.1 chunked transfer coding,
+			// what a streaming client or a proxy sends): the chunk boundaries are the sender's
+			err = chunkedCall("http://"+paddr, rng, &out, "vipnode_echo", s, k)
+		} else {
+			err = cli.Call(cctx, &out, "vipnode_echo", s, k)
+		}
 		cancel()
 		if err != nil {
 			mon = append(mon, fmt.Sprintf("c17-http-error: call %d failed: %v", k, err))
@@ -498,6 +506,57 @@ func c17HTTP(ctx *Ctx, i int, rng *rand.Rand) {
 		}
 	}
 	ctx.Emit(Case{I: i, Kind: "http", Desc: map[string]interface{}{"calls": calls}, Monitor: mon})
+}
+
+// chunkedCall posts one request whose body is written in pieces of the sender's choosing with no
+// Content-Length (Transfer-Encoding: chunked), and decodes the reply.
+func chunkedCall(endpoint string, rng *rand.Rand, result interface{}, method string, params ...interface{}) error {
+	msg, err := (&jsonrpc2.Client{}).Request(method, params...)
+	if err != nil {
+		return err
+	}
+	body, err := json.Marshal(msg)
+	if err != nil {
+		return err
+	}
+	pr, pw := io.Pipe()
+	go func() {
+		b := body
+		for len(b) > 0 {
+			n := 1 + rng.Intn(len(b))
+			if rng.Intn(3) == 0 && n > 7 {
+				n = 1 + rng.Intn(7)
+			}
+			pw.Write(b[:n])
+			b = b[n:]
+		}
+		pw.Close()
+	}()
+	req, err := http.NewRequest("POST", endpoint, pr)
+	if err != nil {
+		return err
+	}
+	req.Header.Set("Content-Type", "application/json")
+	resp, err := http.DefaultClient.Do(req)
+	if err != nil {
+		return err
+	}
+	defer resp.Body.Close()
+	raw, err := ioutil.ReadAll(resp.Body)
+	if err != nil {
+		return err
+	}
+	if resp.StatusCode != 200 {
+		return fmt.Errorf("chunked request answered %d: %s", resp.StatusCode, strings.TrimSpace(string(raw)))
+	}
+	var reply jsonrpc2.Message
+	if err := json.Unmarshal(raw, &reply); err != nil {
+		return fmt.Errorf("chunked request: reply does not parse: %v", err)
+	}
+	if reply.Response == nil {
+		return fmt.Errorf("chunked request: reply is not a response: %s", raw)
+	}
+	return reply.Response.UnmarshalResult(result)
 }
 
 func runC17(ctx *Ctx) {
